@@ -44,6 +44,7 @@ func checkC11(c *Ctx, r *Report) {
 	macKeptOnFailure(c, r, "C11.R5.mac-kept-on-failure")
 	r.rule("C11.R4.canonical-fold", 1, "CanonicalName, which lower-cases the key and algorithm names into the digest, folds exactly A-Z")
 	foldRangeRule(c, r, "C11.R4.canonical-fold", "CanonicalName", "a key name containing the letter left out goes into the digest with an upper-case octet: the MAC is not the RFC 8945 MAC, and the genuine one is refused")
+	secretByCanonicalName(c, r, "C11.R2.secret-by-canonical-name")
 }
 
 func isUint64(v ssa.Value) bool {
@@ -347,13 +348,19 @@ func c11R2(c *Ctx, r *Report) {
 		}
 		r.fn(name)
 		var problems []string
-		var lk *ssa.Lookup
+		var lk ssa.Value
 		allInstrs(fn, func(in ssa.Instruction) {
-			if l, ok := in.(*ssa.Lookup); ok {
+			if l, ok := in.(*ssa.Lookup); ok && l.X == ssa.Value(fn.Params[0]) && anyIn(sliceOf(l.Index), fieldPathOf(isValue(fn.Params[2]), "Hdr.Name")) {
 				lk = l
 			}
+			// or through a helper of the provider that does nothing but look its argument up in the receiver
+			if call, ok := in.(*ssa.Call); ok && len(call.Call.Args) == 2 && call.Call.Args[0] == ssa.Value(fn.Params[0]) &&
+				anyIn(sliceOf(call.Call.Args[1]), fieldPathOf(isValue(fn.Params[2]), "Hdr.Name")) && isSecretLookupHelper(call.Call.StaticCallee()) {
+				lk = call
+				r.fn(fnDisplay(call.Call.StaticCallee()))
+			}
 		})
-		if lk == nil || lk.X != fn.Params[0] || !anyIn(sliceOf(lk.Index), fieldPathOf(isValue(fn.Params[2]), "Hdr.Name")) {
+		if lk == nil {
 			problems = append(problems, "the secret is not looked up under t.Hdr.Name")
 		} else {
 			okV := func(v ssa.Value) bool {
@@ -970,4 +977,59 @@ func c11R6(c *Ctx, r *Report) {
 		problems = append(problems, fmt.Sprintf("%d ARCOUNT rewrites", n))
 	}
 	r.check(len(problems) == 0, "C11.R6.strip", "stripTsig:arcount", c.pos(fn.Pos()), "wire ARCOUNT - 1 on the found edge", "%s", strings.Join(problems, "; "))
+}
+
+// isSecretLookupHelper: f(recv map, name) (secret, ok) returns nothing but the outcome of looking name (as given or
+// case-folded) up in recv: every lookup is in the receiver under a key derived from the name, the secret
+// returned is a looked-up value and ok is a lookup's second result (or true where one is known to have hit).
+func isSecretLookupHelper(f *ssa.Function) bool {
+	if f == nil || len(f.Blocks) == 0 || len(f.Params) != 2 || f.Signature.Results().Len() != 2 {
+		return false
+	}
+	lookups := map[ssa.Value]bool{}
+	ok := true
+	allInstrs(f, func(in ssa.Instruction) {
+		l, isL := in.(*ssa.Lookup)
+		if !isL {
+			return
+		}
+		if l.X != ssa.Value(f.Params[0]) || !sliceOf(l.Index)[f.Params[1]] {
+			ok = false
+		}
+		lookups[l] = true
+	})
+	if !ok || len(lookups) == 0 {
+		return false
+	}
+	for _, b := range f.Blocks {
+		ret, isR := b.Instrs[len(b.Instrs)-1].(*ssa.Return)
+		if !isR {
+			continue
+		}
+		for _, l := range phiLeaves(ret.Results[0]) {
+			e, isE := l.(*ssa.Extract)
+			if !isE || !lookups[e.Tuple] || e.Index != 0 {
+				return false
+			}
+		}
+		for _, l := range phiLeaves(ret.Results[1]) {
+			if e, isE := l.(*ssa.Extract); isE && lookups[e.Tuple] && e.Index == 1 {
+				continue
+			}
+			k, isK := l.(*ssa.Const)
+			if !isK || k.Value == nil || k.Value.ExactString() != "true" {
+				return false
+			}
+			hit := false
+			for _, fct := range factsAt(f, b) {
+				if e, isE := fct.Atom.(*ssa.Extract); isE && lookups[e.Tuple] && e.Index == 1 && fct.Holds {
+					hit = true
+				}
+			}
+			if !hit {
+				return false
+			}
+		}
+	}
+	return true
 }
